@@ -28,8 +28,8 @@ CLAUSE -> THEOREMS -> WHAT REMAINS OUTSIDE
     -> delineate_ok_iff_no_cycle, delineate_ok_of_room, delineate_outcomes
     outside: the buffer must hold len(area)+1 entries (one more than the docstring says) — not a clause of the property
 * grids containing flow cycles end in an error or a bounded result, never a hang
-    -> delineate_cycle_error, delineate_outcomes, walks_bounded
-    outside: termination of the compiled code itself is observed (worker subprocess with time limits), the theorems are about the total model whose recursion bound is proved never to be the thing that stops it
+    -> delineate_cycle_error, delineate_outcomes, walks_bounded, cycleThroughOutlet_iff, delineate_length_le
+    outside: termination of the compiled code itself is observed (worker subprocess with time limits). WHICH of the two outcomes (error / bounded result) and its values are left open by the property: where the model's own predicates say so — cycleThroughOutlet (proved = a cycle through the outlet, cycleThroughOutlet_iff), chainCyclic (the river chain has not ended after ncells+1 cells), flowPathCapped (the walk used all its iterations) — the correspondence and the oracle only require an error or a result within the bound; everything else is compared exactly
 * the hole-filled area contains the area
     -> filled_contains_area, filled_empty
     outside: scipy.ndimage.binary_fill_holes is a parameter of the model with the hypothesis 'keeps the mask' (external); which extra cells it adds is only compared (scipy's answer fed back through the model's cell numbering)
@@ -367,6 +367,43 @@ theorem delineate_ok_iff_no_cycle (hc : 0 < g.ncols) {o : Int} {inlets : List In
         ((Bfs.layersFrom (upStep codes g inlets) o 0 n).length : Int) + 1) n ho hin hstop (by omega)
     exact ⟨_, A, hA⟩
 
+/-- a delineated area has at most as many cells as the grid -/
+theorem delineate_length_le (hc : 0 < g.ncols) {o nval : Int} {inlets A : List Int}
+    (h : delineateArea codes g o inlets nval = .ok A) : A.length ≤ (g.nrows * g.ncols).toNat := by
+  have hnd := (delineate_ok_iff hc h).1
+  have hv := delineate_cells_valid hc h
+  have hsub : ∀ x ∈ A, x ∈ (List.range (g.nrows * g.ncols).toNat).map (fun n : Nat => (n : Int)) := by
+    intro x hx
+    have := validCell_iff.1 (hv x hx)
+    rw [List.mem_map]
+    exact ⟨x.toNat, List.mem_range.2 (by omega), by omega⟩
+  have := length_le_of_nodup_subset hnd hsub
+  simpa using this
+
+/-- **where the correspondence compares "error or bounded result" only**: the model's predicate
+`cycleThroughOutlet` (the search run with room for every cell of the grid still exhausts its buffers) holds
+exactly when a flow cycle passes through the outlet in the graph with the inlets removed -/
+theorem cycleThroughOutlet_iff (hc : 0 < g.ncols) {o : Int} {inlets : List Int}
+    (ho : validCell g.nrows g.ncols o = true)
+    (hin : ∀ m ∈ inlets, validCell g.nrows g.ncols m = true) :
+    cycleThroughOutlet codes g o inlets = true ↔ ∃ p, 1 ≤ p ∧ Reaches codes g inlets p o o := by
+  have hN : 1 ≤ g.nrows * g.ncols + 2 := by have := validCell_iff.1 ho; omega
+  constructor
+  · intro hcyc
+    by_contra hno
+    obtain ⟨nval₀, A, hA⟩ := (delineate_ok_iff_no_cycle hc ho hin).2 hno
+    have hlen := delineate_length_le hc hA
+    have hpos := (validCell_iff.1 ho)
+    obtain ⟨A', hA', _⟩ := delineate_ok_of_room (nval := g.nrows * g.ncols + 2) hA (by omega)
+    unfold cycleThroughOutlet at hcyc
+    rw [hA'] at hcyc
+    simp at hcyc
+  · rintro ⟨p, hp, hcyc⟩
+    obtain ⟨e, he, hk⟩ := delineate_cycle_error hc hN ho hin hp hcyc
+    unfold cycleThroughOutlet
+    rw [he]
+    rcases hk with rfl | rfl | rfl <;> rfl
+
 /-- **guards and error kinds**: `nval < 1`, an outlet off the grid, an inlet off the grid are rejected in
 that order; otherwise the call returns an area or one of the three buffer-exhaustion errors — the
 model's own recursion bound is never what stops it -/
@@ -677,6 +714,9 @@ example : flowPath codes exGrid 2 2 1 = (2, [true]) := by decide
 example : flowPathWith codes exGrid 2 (isDiagPinned 2) 2 1 = (2, [false]) := by decide
 example : Reaches codes exCycle [] 2 0 0 := by unfold Reaches; decide
 example : delineateArea codes exCycle 0 [] 7 = .error .areaFull := by decide
+example : cycleThroughOutlet codes exCycle 0 [] = true ∧ cycleThroughOutlet codes exGrid 2 [] = false ∧
+    chainCyclic codes exCycle 1 = true ∧ chainCyclic codes exGrid 1 = false ∧
+    flowPathCapped codes exCycle 5 2 0 = true ∧ flowPathCapped codes exGrid 2 2 1 = false := by decide
 example : chainCells codes exGrid 5 1 = [1, 2] ∧ chainSteps codes exGrid (isDiag 2) 1 1 = [true] := by decide
 
 /-- a history with two delineations of equal size on one object, an edit in between -/
